@@ -711,6 +711,38 @@ func (e *Enc) loopOrderVerdict(ml *mapLoop) orderVerdict {
 			}
 		}
 	}
+	// values escaping through an early exit (return / break in a block that is not part of the
+	// natural loop): a value computed in one iteration and used after the loop was left makes
+	// the result depend on which key came first
+	for _, b := range ml.fn.Blocks {
+		if ml.blocks[b.Index] {
+			continue
+		}
+		for _, in := range b.Instrs {
+			if _, isPhi := in.(*ssa.Phi); isPhi {
+				continue // handled with the exit edges above
+			}
+			for _, op := range in.Operands(nil) {
+				if op == nil || *op == nil {
+					continue
+				}
+				d, isInstr := (*op).(ssa.Instruction)
+				if !isInstr || !ml.inLoop(*op) {
+					continue
+				}
+				if _, isHdrPhi := (*op).(*ssa.Phi); isHdrPhi && d.Block() == ml.header {
+					continue
+				}
+				if d.Block() == ml.header {
+					continue // the iterator state itself (next/extract in the header)
+				}
+				if ml.invariant(*op) || ml.isAccumulator(*op) {
+					continue
+				}
+				fail("a value computed inside the loop (%s) is used after an early exit (%s)", (*op).Name(), e.P.posString(in.Pos()))
+			}
+		}
+	}
 	for mk := range updates {
 		if deletes[mk] {
 			fail("the loop both inserts into and deletes from maps of type %s", mk)
